@@ -140,8 +140,15 @@ class Ctx(object):
         self.pos += 1
         return 0
 
+    _SIMP_MEMO = {}
+
     def assume(self, fact):
-        fact = Z.simp(fact) if z3.is_expr(fact) else fact
+        if z3.is_expr(fact):
+            k = fact.get_id()
+            m = Ctx._SIMP_MEMO.get(k)
+            if m is None:
+                m = Ctx._SIMP_MEMO[k] = (fact, Z.simp(fact))
+            fact = m[1]
         if Z.is_true(fact):
             return
         self.pc.append(fact)
